@@ -61,6 +61,7 @@ type TxSpec struct {
 
 // Chain drives one real ElysApp through ABCI and records observations.
 type Chain struct {
+	OwnDenom string // authority enumeration: base denom of the asset-profile listing created by the user sender class
 	App     *elysapp.ElysApp
 	DB      dbm.DB
 	Gen     *Genesis
